@@ -318,7 +318,7 @@ class Executor:
         return Sym(z3.BitVec(n, INT_BITS[ty]), ty)
 
     def lazy_child(self, st, lz, key, ty, labelsuffix):
-        ov = st.over.get((lz.oid, key))
+        ov = st.over.get((lz.oid, key)) if st is not None else None
         if ov is not None:
             return ov
         k = (lz.oid, key)
@@ -352,7 +352,7 @@ class Executor:
                 raise Inconclusive(f"unknown discriminant index of {v.ty}::{v.variant}")
             return z3.BitVecVal(idx, 64)
         if isinstance(v, Lazy):
-            ov = st.over.get((v.oid, ("discr",)))
+            ov = st.over.get((v.oid, ("discr",))) if st is not None else None
             if ov is not None:
                 return ov
             k = (v.oid, ("discr",))
